@@ -9,7 +9,7 @@ CHECKS = {
         technique='runtime round-trip monitor over a generated type catalogue, value-level oracle',
         level="exploration",
         quick=NATIVE,
-        thorough=NATIVE + [("fresh", 1.0)],
+        thorough=NATIVE + [("fresh", 1.0, {"only": "fresh"})],
         rule="for every type expression of the catalogue (every leaf codec; every constructor x arity x rotating leaf; "
              "seeded compositions to depth 4; thorough adds fresh compositions from VERIF_SEED) boundary-biased values are "
              "generated at the Val level, encoded by the library and decoded again; a case is non-trivial and distinct when "
@@ -25,7 +25,7 @@ CHECKS = {
         technique='differential execution of macro-derived codecs against a schema interpreter',
         level="translation_validation",
         quick=NATIVE,
-        thorough=NATIVE + [("fresh", 1.0)],
+        thorough=NATIVE + [("fresh", 1.0, {"only": "fresh"})],
         rule="every generated #[derive(BinaryCodec)] declaration (programs) is executed on generated values and compared with "
              "the schema interpreter of the reference model: decode(encode(v)) == v[transient := default], the emitted bytes "
              "are what the interpreter prescribes for that declaration, and the interpreter decodes them to the same value; "
@@ -39,7 +39,7 @@ CHECKS = {
         technique="history-level oracle + strict reference decoder over generated evolution histories x version pairs",
         level="exploration",
         quick=NATIVE,
-        thorough=NATIVE + [("fresh", 1.0)],
+        thorough=NATIVE + [("fresh", 1.0, {"only": "fresh"})],
         rule="histories are drawn by a seeded generator of legal evolution steps (FieldAdded / FieldMadeOptional / FieldRemoved / FieldMadeTransient, length 1-5); every prefix becomes a compiled Rust type in four embeddings; all (w, r) pairs x generated values of version w are written by w and read by r; non-trivial = w != r, distinct by (reader type, bytes); every outcome class must be observed at least 10 times",
         floors={"any": {"outcome:as_written": 10, "outcome:wrapped": 10, "outcome:unwrapped": 10, "outcome:none_is_error": 10,
                         "outcome:default_taken": 10, "outcome:removed_reads_none": 10, "outcome:removed_is_error": 10,
@@ -52,14 +52,15 @@ CHECKS = {
         technique='byte-exact differential monitor against an independent reference encoder/decoder',
         level="exploration",
         quick=NATIVE,
-        thorough=NATIVE + [("fresh", 1.0)],
+        thorough=NATIVE + [("fresh", 1.0, {"only": "fresh"})],
         rule="direction 1: bytes written by the library for generated values of every catalogue type and every derived "
              "declaration are decoded by the strict reference decoder, must denote the value, contain no repeated set/map "
              "element, and re-encode byte-identically from the reference's parse; direction 2: the reference encoder writes "
              "the value choosing known- or unknown-length form independently at every sequence position and the library must "
              "decode it to the value; distinct = distinct (type, bytes) pairs",
         floors={"any": {"emitted_conforms": 5000, "reference_encoding_decodes": 5000,
-                        "reference_encodings_with_unknown_length_form": 500}},
+                        "reference_encodings_with_unknown_length_form": 500,
+                        "golden_file_decoded_identically_and_reencoded_byte_exact_by_reference": 1}},
         assumptions=["chrono / uuid / big-number layouts are frozen as found on the pinned tree (no external document)"],
     ),
     "C05": dict(
@@ -93,7 +94,7 @@ CHECKS = {
         technique='consumption monitor (drain the context after decode) over suffix workloads',
         level="exploration",
         quick=NATIVE,
-        thorough=NATIVE + [("fresh", 1.0)],
+        thorough=NATIVE + [("fresh", 1.0, {"only": "fresh"})],
         rule="enc(a) ++ s is decoded through an explicit context which is then drained: the value must be a and exactly "
              "len(s) bytes must remain; s is empty, one hostile byte, random bytes, a copy of the encoding or another valid "
              "encoding; in addition 2-5 heterogeneous values are written into one stream and read back one after another; "
@@ -106,7 +107,7 @@ CHECKS = {
         technique='exhaustive truncation-point enumeration with panic monitor',
         level="fault_enumeration",
         quick=NATIVE,
-        thorough=NATIVE + [("fresh", 1.0)],
+        thorough=NATIVE + [("fresh", 1.0, {"only": "fresh"})],
         rule="fault = truncation at a cut point: for every generated encoding of at most 4 KiB every strict prefix is decoded "
              "(longer ones: first and last 256 cuts plus 256 random); each must give Err — Ok or a panic is a violation; "
              "distinct = distinct (type, prefix) pairs",
@@ -126,8 +127,8 @@ CHECKS = {
         note="Trusted: the harness codec (graph.rs, safe Rust, public API only) and the DFS graph model. Native lanes cannot expose identity-by-fat-pointer; only the Miri lane can.",
         technique="graph-model monitor (byte-exact + isomorphism + pointer equality) over exhaustive small graphs; Miri lane",
         level="exploration",
-        quick=NATIVE + [("miri", 0.02, {"shards": 8, "max_nodes": 2})],
-        thorough=NATIVE + [("asan", 1.0), ("miri", 0.05, {"shards": 16, "max_nodes": 3})],
+        quick=NATIVE + [("miri", 0.008, {"shards": 16, "max_nodes": 2})],
+        thorough=NATIVE + [("asan", 1.0), ("miri", 0.005, {"shards": 16, "max_nodes": 3})],
         rule="graphs enumerated exhaustively up to the node bound (all ordered edge lists of length 0..2 per node, all nodes reachable), random beyond; non-trivial = some node is offered more than once (sharing, cycle or self-loop); distinct by adjacency structure",
         floors={"any": {"graphs_rebuilt_isomorphic": 500, "unknown_object_numbers_rejected": 500}},
     ),
@@ -156,7 +157,7 @@ CHECKS = {
         note="Trusted: EnumSchema::wire_index (stable sort by name) and the family generator.",
         technique="cross-definition differential execution over generated enum families + spliced constructor indices",
         level="exploration",
-        quick=NATIVE, thorough=NATIVE + [("fresh", 1.0)],
+        quick=NATIVE, thorough=NATIVE + [("fresh", 1.0, {"only": "fresh"})],
         rule="cases: (enum, value) leading-index checks, (base, extension, value) cross reads both ways, spliced indices {n, n+1, 127, 128, 2^14, u32::MAX} and transient indices; non-trivial = all; distinct by (reader type, bytes)",
         floors={"any": {"old_data_keeps_its_meaning": 2000, "old_data_keeps_its_meaning_sorted": 300, "new_constructor_rejected_by_old_definition": 1000, "unknown_index_rejected": 1000, "transient_index_rejected": 30, "leading_index_checked_for_sorted_constructors": 500}},
     ),
@@ -165,7 +166,7 @@ CHECKS = {
         note="Trusted: refmodel::scramble_transients; for types with hash containers byte equality is judged through the strict reference decoder (iteration order differs per instance).",
         technique="metamorphic monitor: transient-only variation must not change the bytes",
         level="exploration",
-        quick=NATIVE, thorough=NATIVE + [("fresh", 1.0)],
+        quick=NATIVE, thorough=NATIVE + [("fresh", 1.0, {"only": "fresh"})],
         rule="non-trivial = the two values really differ (some transient field was changed); distinct by (type, bytes)",
         floors={"any": {"transient_values_do_not_influence_bytes": 5000, "transient_fields_decoded_to_default": 5000, "transient_constructor_refused": 500, "made_transient_versions_encodable": 500, "made_transient_after_earlier_steps_encodable": 100}},
     ),
